@@ -7,6 +7,7 @@ import (
 	"golang.org/x/tools/go/ssa"
 
 	"wvsa/internal/facts"
+	"wvsa/internal/load"
 )
 
 // lockState computes, for every instruction of fn, whether the mutex stored in field `mu` (of
@@ -120,4 +121,32 @@ func blockingOps(fn *ssa.Function, blockingCalls func(name string) bool) []block
 		}
 	})
 	return out
+}
+
+// heldAt reports whether mutex field mu is held at instr of fn on every path, either because fn
+// itself acquired it, or because fn is an unexported helper that is never used as a value and
+// every one of its (synchronous) call sites holds the lock — the "caller must hold mu" idiom.
+func heldAt(p *load.Program, fn *ssa.Function, instr ssa.Instruction, mu *types.Var, read bool, depth int) bool {
+	if lockState(fn, mu, read)[instr] {
+		return true
+	}
+	if depth >= 3 || fn.Parent() != nil || fn.Object() == nil || fn.Object().Exported() {
+		return false
+	}
+	if len(funcRefs(p, fn)) > 0 {
+		return false
+	}
+	sites := callsTo(p, fn)
+	if len(sites) == 0 {
+		return false
+	}
+	for _, s := range sites {
+		if _, isCall := s.Instr.(*ssa.Call); !isCall {
+			return false // go/defer: the caller's lock does not cover the callee's execution
+		}
+		if !heldAt(p, s.Fn, s.Instr, mu, read, depth+1) {
+			return false
+		}
+	}
+	return true
 }
